@@ -21,6 +21,8 @@ pub struct DiskCtl {
     pub rnd_enospc_pm: u32,
     pub rnd_short_pm: u32,
     pub rnd_crash_pm: u32,
+    /// extra per-mille of EIO on sync operations only (a failed fsync is the interesting disk error)
+    pub rnd_sync_eio_pm: u32,
     pub rnd_budget: u32,
     pub ops: u64,
     pub bytes_written: u64,
@@ -29,6 +31,10 @@ pub struct DiskCtl {
     pub power_loss: bool,
     pub synced_len: std::collections::BTreeMap<std::path::PathBuf, u64>,
     pub seen_files: std::collections::BTreeSet<std::path::PathBuf>,
+    /// power-loss mode: byte ranges that were dirty when a sync of their file FAILED. Linux reports a
+    /// write-back error once and marks the pages clean: a later successful sync does not make them durable
+    /// ("fsyncgate"). At a power loss these ranges read as zeros.
+    pub poisoned: Vec<(std::path::PathBuf, u64, u64)>,
 }
 
 thread_local! {
@@ -55,6 +61,19 @@ pub fn apply_power_loss() {
     with(|d| {
         if !d.power_loss {
             return;
+        }
+        for (f, from, to) in d.poisoned.clone() {
+            if let Ok(md) = std::fs::metadata(&f) {
+                let to = to.min(md.len());
+                if to > from {
+                    use std::io::{Seek, SeekFrom, Write};
+                    if let Ok(mut h) = std::fs::OpenOptions::new().write(true).open(&f) {
+                        let _ = h.seek(SeekFrom::Start(from));
+                        let _ = h.write_all(&vec![0u8; (to - from) as usize]);
+                        sim::fault_fired("power_loss_dropped_pages_of_a_failed_sync");
+                    }
+                }
+            }
         }
         let files: Vec<std::path::PathBuf> = d.seen_files.iter().cloned().collect();
         for f in files {
@@ -133,7 +152,7 @@ pub fn install(node: u32) {
                 }
                 // random faults
                 let enabled = sim::with(|st| st.cfg.enabled);
-                if enabled && d.rnd_budget > 0 && (d.rnd_eio_pm + d.rnd_enospc_pm + d.rnd_short_pm + d.rnd_crash_pm) > 0 {
+                if enabled && d.rnd_budget > 0 && (d.rnd_eio_pm + d.rnd_enospc_pm + d.rnd_short_pm + d.rnd_crash_pm + d.rnd_sync_eio_pm) > 0 {
                     let r = sim::s(1000);
                     let mut hi = 1000;
                     let mut hit = |pm: u32| -> bool {
@@ -147,6 +166,11 @@ pub fn install(node: u32) {
                         let n = if len > 0 { sim::s(len as u32 + 1) as usize } else { 0 };
                         die(&mut d, &format!("disk_crash_in_{op}"));
                         return FsAction::TornThenDie(n);
+                    }
+                    if op == "sync" && hit(d.rnd_sync_eio_pm) {
+                        d.rnd_budget -= 1;
+                        sim::fault_fired("disk_eio_on_sync");
+                        return FsAction::Fail(libc::EIO);
                     }
                     if hit(d.rnd_eio_pm) && op != "open" {
                         d.rnd_budget -= 1;
@@ -184,6 +208,18 @@ pub fn install(node: u32) {
                 }
                 FsAction::Proceed
             });
+            if op == "sync" && matches!(act, FsAction::Fail(_)) {
+                DISK.with(|d| {
+                    let mut d = d.borrow_mut();
+                    if d.power_loss {
+                        let from = d.synced_len.get(path).copied().unwrap_or(0);
+                        let to = std::fs::metadata(path).map(|m| m.len()).unwrap_or(from);
+                        if to > from {
+                            d.poisoned.push((path.to_path_buf(), from, to));
+                        }
+                    }
+                });
+            }
             sim::log(format!("DISK {op} {name} len={len} -> {:?}", act));
             act
         }));
